@@ -469,6 +469,14 @@ func (e *env) runEnc(id, tier string) {
 			return store.Open(dsnBase + "&encrypt=off&encrypt_key=" + url.QueryEscape(encKey))
 		}, "plain"},
 		{"dsn-none", func() (driver.Conn, error) { return store.Open(dsnBase) }, "plain"},
+		// a DSN that ASKS for encryption in a spelling the backend does not know must not quietly store plaintext:
+		// either it is understood or the open fails
+		{"dsn-ON", func() (driver.Conn, error) { return store.Open(dsnBase + "&encrypt=ON&encrypt_key=" + url.QueryEscape(encKey)) }, "notplain"},
+		{"dsn-aes-gcm", func() (driver.Conn, error) {
+			return store.Open(dsnBase + "&encrypt=aes-gcm&encrypt_key=" + url.QueryEscape(encKey))
+		}, "notplain"},
+		{"dsn-true", func() (driver.Conn, error) { return store.Open(dsnBase + "&encrypt=true&encrypt_key=" + url.QueryEscape(encKey)) }, "notplain"},
+		{"dsn-1-nokey", func() (driver.Conn, error) { return store.Open(dsnBase + "&encrypt=1") }, "notplain"},
 	}
 	for i, c := range cfgs {
 		conn, err := c.open()
